@@ -546,6 +546,12 @@ func GenCrashScript(r *Rng, kind string, hist map[string]int) []string {
 	add("dir db")
 	add("open %s", c)
 	mut := func() {
+		if r.Chance(1, 14) {
+			// a write the operating system refuses: the call fails, the history goes on
+			add("putfail %s %s", engKeys[r.Intn(5)], genEngVal(r, o, c, hist))
+			hist["crash_put_with_refused_write"]++
+			return
+		}
 		x := r.Intn(10)
 		switch {
 		case x < 6:
